@@ -2,8 +2,8 @@
    Model: coq/model/Search.v (`descend` with post = false, entry points search_path / search_find with kind KDfs,
    any direction d: DOut (plain), DIn (transpose()), DAdj (undirected)). `accept` is an arbitrary pure filter;
    PureCb covers Method::Empty, ForEach(recorder) and Filter(pure f). Statements copied from `Check` of the lemmas. *)
-From Gdsl.Model Require Import Spec Callback.
-From Gdsl.Proofs Require Import Descend.
+From Gdsl.Model Require Import Spec Callback SearchFind.
+From Gdsl.Proofs Require Import Descend SearchFindProof.
 
 (* a returned path starts at the root, ends at the node carrying the target key, consists of accepted stored edges joined end to start, and visits no node twice *)
 Theorem c05_path_sound :
@@ -44,7 +44,7 @@ Theorem c05_path_complete :
 Proof. exact dfs_path_complete. Qed.
 Print Assumptions c05_path_complete.
 
-(* search() returns the target node exactly when search_path() returns a path (and that path ends there) *)
+(* search() — the SEPARATELY transcribed find loops of the code (model/SearchFind.v: loop_*_find / recurse_*_find; for pfs `search_path().map(last_node)`) — returns the target node exactly when search_path() returns a path, and that node is where the path ends *)
 Theorem c05_search_agrees :
   forall (K V E : Type) (keqb : K -> K -> bool),
        KeqbSpec keqb ->
@@ -58,16 +58,29 @@ Theorem c05_search_agrees :
        forall (c0 : CB) (fuel : nat) (t : K),
        keyof h root <> Some t ->
        match snd (search_path keqb cb vleb KDfs d fuel h c0 root (Some t) false) with
-       | RNone _ => snd (search_find keqb cb vleb KDfs d fuel h c0 root (Some t)) = RNone E
+       | RNone _ => snd (search_find' keqb cb vleb KDfs d fuel h c0 root (Some t)) = RNone E
        | RPath p =>
            exists (v : nat) (p0 : list (edge E)) (w : edge E),
-             snd (search_find keqb cb vleb KDfs d fuel h c0 root (Some t)) = RNode E v /\
+             snd (search_find' keqb cb vleb KDfs d fuel h c0 root (Some t)) = RNode E v /\
              p = p0 ++ [w] /\ edst w = v /\ keyof h v = Some t
-       | RFuel _ => snd (search_find keqb cb vleb KDfs d fuel h c0 root (Some t)) = RFuel E
+       | RFuel _ => snd (search_find' keqb cb vleb KDfs d fuel h c0 root (Some t)) = RFuel E
        | _ => False
        end.
-Proof. exact dfs_find_agrees. Qed.
+Proof. exact search_find'_agrees_dfs. Qed.
 Print Assumptions c05_search_agrees.
+
+(* for EVERY callback (no purity needed), heap, root, target and fuel: the find machine ends with the same verdict, the same heap, the same callback state (hence the same closure trace) and the same visited set as the path machine *)
+Theorem c05_find_loops_simulate_path_loops :
+  forall (K V E : Type) (keqb : K -> K -> bool) (CB : Type)
+         (cb : CB -> heap K V E -> edge E -> CB * heap K V E * bool) (vleb : V -> V -> bool) 
+         (k : kind) (d : dir) (fuel : nat) (h : heap K V E) (c : CB) (root : nat) 
+         (target : option K),
+       let x := search_find' keqb cb vleb k d fuel h c root target in
+       let y := run_search keqb cb vleb k d fuel h c root target false in
+       snd x = res_of_status E (snd y) /\
+       s_heap (fst x) = s_heap (fst y) /\ s_cb (fst x) = s_cb (fst y) /\ s_vis (fst x) = s_vis (fst y).
+Proof. exact find_machine_agrees. Qed.
+Print Assumptions c05_find_loops_simulate_path_loops.
 
 (* with fuel >= fuel_bound the machines never run out of fuel: the out-of-fuel outcome excluded above cannot occur *)
 Theorem c05_terminates :
